@@ -17,6 +17,7 @@ mod solve;
 mod syntax;
 mod reader;
 mod session;
+mod knowledge;
 mod timer;
 mod gentrace;
 mod genunify;
@@ -49,6 +50,7 @@ pub fn props_of(case: &Value) -> Vec<&'static str> {
         "solve" => solve::props_of(case),
         "reader" => reader::props_of(case),
         "session" => session::props_of(case),
+        "knowledge" => knowledge::props_of(case),
         "timer" => timer::props_of(case),
         t if t.starts_with("syn-") => syntax::props_of(case),
         _ => vec![],
@@ -63,6 +65,7 @@ pub fn run_case(case: &Value) -> Vec<Obs> {
         "solve" => solve::replay(case),
         "reader" => reader::replay(case),
         "session" => session::replay(case),
+        "knowledge" => knowledge::replay(case),
         "timer" => timer::replay(case),
         t if t.starts_with("syn-") => syntax::replay(case),
         "mklist" => lists::replay_mklist(case),
